@@ -58,9 +58,15 @@ func genAttempt(t *rapid.T, allowCtxEnd bool) Attempt {
 		}
 		ends := []string{"eof", "eof", "eof", "eof", "err", "err", "err"}
 		if allowCtxEnd {
-			ends = append(ends, "cancel", "deadline")
+			ends = append(ends, "cancel", "deadline", "cbcancel")
 		}
 		a.End = stats.From(t, ends, "end")
+		if a.End == "cbcancel" {
+			// the stream ends with an event on which the consumer cancels; then the body blocks
+			// until the context is done, like a live connection
+			s = strings.TrimSuffix(s, "data: cut in mid-li")
+			a.Stream = stats.B(s + "\n\ndata: " + cancelMarker + "\n\n")
+		}
 		if a.End == "cancel" {
 			a.HangMs = stats.Pick(t, 3, "hangms")
 		}
@@ -85,7 +91,7 @@ var longDigits = regexp.MustCompile(`[0-9]{4,}`)
 func genC11(t *rapid.T) Script {
 	var sc Script
 	sc.Backoff = BackoffCfg{InitialNs: int64(1+stats.Pick(t, 5, "initms")) * 1e6, Multiplier: 1, Jitter: 0.5}
-	sc.Backoff.MaxRetries = stats.From(t, []int{-1, -1, 0, 1, 2, 3}, "maxretries")
+	sc.Backoff.MaxRetries = stats.From(t, []int{-1, -1, -2, -1000000, 0, 0, 1, 2, 3}, "maxretries")
 	n := 1 + stats.Pick(t, 6, "nattempts")
 	for i := 0; i < n; i++ {
 		sc.Attempts = append(sc.Attempts, genAttempt(t, true))
@@ -113,6 +119,9 @@ func genC11(t *rapid.T) Script {
 					b.WriteString("data: " + strings.Repeat("x", 70+stats.Pick(t, 60, "biglen")) + "\n\n")
 				}
 				b.WriteString(fmt.Sprintf("id: %d\ndata: e\n\n", k))
+			}
+			if sc.Attempts[i].End == "cbcancel" {
+				b.WriteString("data: " + cancelMarker + "\n\n") // keep the event the consumer cancels on
 			}
 			sc.Attempts[i].Stream = stats.B(b.String())
 		}
@@ -155,7 +164,7 @@ func streamCause(a Attempt, bufMax int) (cause string, fieldless, midline bool) 
 	switch a.End {
 	case "err":
 		return "boom" + a.ErrKind, fieldless, midline
-	case "cancel", "deadline":
+	case "cancel", "deadline", "cbcancel":
 		return "ctx", fieldless, midline
 	}
 	if ref.UnexpectedEOF {
